@@ -40,7 +40,7 @@ def junk_text(draw):
 # ---------------------------------------------------------------- (a) command lines
 @st.composite
 def btcdeb_cmd(draw):
-    kind = draw(st.sampled_from(['script', 'script', 'script-z', 'script-junk', 'spend', 'spend-mutated', 'spend-witshape', 'spend-witshape', 'tx-only', 'options', 'select', 'stdin-edge']))
+    kind = draw(st.sampled_from(['script', 'script', 'script-z', 'script-junk', 'spend', 'spend-mutated', 'spend-witshape', 'spend-witshape', 'spend-shapes', 'spend-shapes', 'p2sh-plain', 'tx-only', 'options', 'select', 'stdin-edge']))
     argv, stdin = [], b''
     comp = kind
     if kind in ('script', 'script-z'):
@@ -56,9 +56,21 @@ def btcdeb_cmd(draw):
         stdin = draw(st.one_of(st.just(junk_text(draw).encode()), st.binary(max_size=40))) + draw(st.sampled_from([b'\n', b'', b'\r\n']))
         argv += [junk_text(draw) for _ in range(draw(st.integers(0, 2)))]
         argv = [a for a in argv if not a.startswith('-') or a in ('-1',)]
-    elif kind in ('spend', 'spend-mutated', 'select', 'spend-witshape'):
+    elif kind == 'p2sh-plain':
+        # a P2SH-shaped script given directly, redeem script (with signature opcodes, longer than the inline script storage) as last stack item
+        keys = [bytes([2]) + bytes([i + 1]) * 32 for i in range(draw(st.integers(1, 3)))]
+        redeem = draw(st.sampled_from([b''.join(G.push(k_, 1) for k_ in keys) + b'\xac', b'\x51' + b''.join(G.push(k_, 1) for k_ in keys) + bytes([0x50 + len(keys)]) + b'\xae',
+                                       G.push(keys[0], 1) + b'\xad\x51', b'\x76\xa9\x14' + bytes(20) + b'\x88\xac' + b'\x61' * 10]))
+        script = b'\xa9\x14' + R.ripemd(R.sha256(redeem)) + b'\x87'
+        args = [draw(st.sampled_from([b'', b'\x01', secp.der_sig(1, 1) + b'\x01'])) for _ in range(draw(st.integers(0, 3)))]
+        stdin = b'0x' + script.hex().encode() + b'\n'
+        argv += ['0x' + x.hex() for x in args] + (['0x' + redeem.hex()] if draw(st.integers(0, 4)) else [])
+    elif kind in ('spend', 'spend-mutated', 'select', 'spend-witshape', 'spend-shapes'):
         rnd = draw(st.randoms(use_true_random=False))
-        if kind == 'spend-witshape':
+        if kind == 'spend-shapes':
+            c = S.build(rnd, draw(st.sampled_from(S.TYPES)), ninputs=draw(st.sampled_from([None, 1])))
+            S.corrupt(c, draw(st.sampled_from(['tiny_scriptsig', 'spk_shape', 'spk_shape'])), rnd)
+        elif kind == 'spend-witshape':
             # unusual witness stack shapes on witness-program outputs (lone annex-tagged item, only empty items, ...)
             c = S.build(rnd, draw(st.sampled_from(['p2tr-key', 'p2tr-key', 'p2tr-script', 'p2wpkh', 'p2wsh', 'p2sh-p2wsh', 'p2sh-p2wpkh'])), ninputs=draw(st.sampled_from([None, 1])))
             S.corrupt(c, 'wit_shape', rnd)
@@ -234,9 +246,38 @@ def root_cause(c, r):
 
 
 # ---------------------------------------------------------------- (b) REPL command sequences
+def _bech32_edges():
+    from ..ref import bech32 as B32
+    out = []
+    for hrp in ('a', 'bcrt', 'bc'):
+        for data in ([], [0], [1], [1, 0], [16], [0] * 3):
+            for const in (B32.BECH32_CONST, B32.BECH32M_CONST):
+                out.append(B32.encode(hrp, data, const))
+    return out
+
+
+BECH32_EDGES = _bech32_edges()
+
+
+@st.composite
+def repl_special(draw):
+    """sessions aimed at state shared between commands: P2SH-shaped plain scripts with too few stack items (failing steps keep advancing),
+    scripts with signature checks after a point where `exec OP_CODESEPARATOR` may be issued"""
+    k = draw(st.integers(0, 2))
+    if k == 0:
+        redeem = b'\x51' * draw(st.integers(1, 40))
+        script = b'\xa9\x14' + R.ripemd(R.sha256(redeem)) + b'\x87'
+        stack = [redeem] if draw(st.integers(0, 2)) == 0 else []
+        return dict(kind='p2sh-short-stack', kw=dict(script=script, stack=stack, flags=SS.STD, sv=R.BASE))
+    key = bytes([2]) + bytes(range(1, 33))
+    sig = secp.der_sig(1, 1) + b'\x01'
+    script = b'\x61' * draw(st.integers(0, 3)) + G.push(sig, 1) + G.push(key, 1) + draw(st.sampled_from([b'\xac', b'\xad\x51', b'\x51' + b'\x7c' + b'\x51\xae']))
+    return dict(kind='checksig-after-exec', kw=dict(script=script, stack=[], flags=SS.STD & ~F['CONST_SCRIPTCODE'] & ~F['NULLFAIL'], sv=R.BASE))
+
+
 @st.composite
 def repl_case(draw):
-    sess = draw(st.one_of(SS.plain('ctrl'), SS.plain('mixed'), SS.plain('arith'), SS.legacy_spend(), SS.tapscript_spend()))
+    sess = draw(st.one_of(SS.plain('ctrl'), SS.plain('mixed'), SS.plain('arith'), SS.legacy_spend(), SS.tapscript_spend(), repl_special()))
     if 'spendtx' not in sess['kw']:
         sess['kw']['sv'] = R.BASE
     n = draw(st.integers(1, 12))
@@ -251,12 +292,12 @@ def repl_case(draw):
             cmds.append(draw(st.sampled_from(['stack', 'altstack', 'vfexec', 'print', 'help', 'help exec', 'nosuchcommand', ''])))
         elif k < 8:
             toks = [draw(st.one_of(st.sampled_from(['OP_DUP', 'DUP', '1ADD', 'OP_ADD', 'OP_IF', 'OP_ENDIF', 'OP_ELSE', 'OP_TOALTSTACK', 'OP_FROMALTSTACK', 'OP_CHECKSIG', 'OP_CHECKMULTISIG', 'OP_PICK', 'OP_ROLL', 'OP_VERIFY',
-                                                         'OP_RETURN', 'OP_CAT', '2147483648', '-2147483649', '99999999999', '0x01', '0102030405', 'zz', '', '[OP_1]', 'OP_x', '5', 'ff', '00']),
+                                                         'OP_RETURN', 'OP_CAT', 'OP_CODESEPARATOR', 'OP_CODESEPARATOR', 'OP_CHECKSIGVERIFY', 'OP_HASH160', 'OP_EQUAL', '2147483648', '-2147483649', '99999999999', '0x01', '0102030405', 'zz', '', '[OP_1]', 'OP_x', '5', 'ff', '00']),
                                        st.text(alphabet='0123456789abcdefOP_', max_size=8))) for _ in range(draw(st.integers(0, 4)))]
             cmds.append('exec ' + ' '.join(toks))
         else:
             name = draw(st.sampled_from(c14.ALL_TF + ['nosuch', '-h', '']))
-            args = [draw(st.one_of(st.just(junk_text(draw)), st.binary(max_size=40).map(lambda b: '0x' + b.hex()), st.sampled_from(['xyz', '1', '0', '-1', 'abc', '1PqhyaTFgaHeYVmi5qBV9AjjeiyiTV1hpx', 'bcrt1qqqqqq']))) for _ in range(draw(st.integers(0, 3)))]
+            args = [draw(st.one_of(st.just(junk_text(draw)), st.binary(max_size=40).map(lambda b: '0x' + b.hex()), st.sampled_from(['xyz', '1', '0', '-1', 'abc', '1PqhyaTFgaHeYVmi5qBV9AjjeiyiTV1hpx', 'bcrt1qqqqqq'] + BECH32_EDGES))) for _ in range(draw(st.integers(0, 3)))]
             cmds.append(('tf %s %s' % (name, ' '.join(args))).strip())
     cmds = [c.replace('\n', ' ').replace('\r', ' ').replace('\x00', '') for c in cmds]
     return dict(sess=sess, cmds=cmds)
@@ -266,19 +307,26 @@ def repl_json(c):
     kw = c['sess']['kw']
     if 'spendtx' in kw:
         return dict(spendtx=kw['spendtx'], spendtxin=kw['spendtxin'], cmds=c['cmds'])
-    return dict(script=kw['script'].hex(), stack=[x.hex() for x in kw['stack']], cmds=c['cmds'])
+    return dict(script=kw['script'].hex(), stack=[x.hex() for x in kw['stack']], flags=kw.get('flags'), cmds=c['cmds'])
 
 
 def repl_argv(kw):
     if 'spendtx' in kw:
         return ['--tx=' + kw['spendtx'], '--txin=' + kw['spendtxin']]
-    return ['0x' + kw['script'].hex()] + ['0x' + x.hex() for x in kw['stack']]
+    mods = []
+    if kw.get('flags') is not None:
+        for n in R.FLAGS:
+            if (SS.STD & F[n]) and not (kw['flags'] & F[n]):
+                mods.append('-' + n)
+    return (['--modify-flags=' + ','.join(mods)] if mods else []) + ['0x' + kw['script'].hex()] + ['0x' + x.hex() for x in kw['stack']]
 
 
 def check_repl(c, ctx, variant='asan'):
     kw = c['sess']['kw']
     if any(not all(32 <= ord(ch) < 127 for ch in cmd) for cmd in c['cmds']):
         return
+    if 'spendtx' not in kw and kw.get('flags') is not None and kw['flags'] != SS.STD:
+        pass
     ctx.case(repr(repl_json(c)), True, repl_json(c), 'repl')
     rp = cli.Repl(repl_argv(kw), variant=variant)
     blocks, err, status = rp.session(c['cmds'], timeout=40)
@@ -430,7 +478,7 @@ def replay(rec):
         if 'cmds' in c and 'spendtx' in c:
             check_repl(dict(sess=dict(kw=dict(spendtx=c['spendtx'], spendtxin=c['spendtxin'])), cmds=c['cmds']), ctx)
         elif 'cmds' in c:
-            check_repl(dict(sess=dict(kw=dict(script=bytes.fromhex(c['script']), stack=[bytes.fromhex(x) for x in c['stack']])), cmds=c['cmds']), ctx)
+            check_repl(dict(sess=dict(kw=dict(script=bytes.fromhex(c['script']), stack=[bytes.fromhex(x) for x in c['stack']], flags=c.get('flags'))), cmds=c['cmds']), ctx)
         elif c.get('full_argv') is not None:
             check_cmd(dict(tool=c['tool'], argv=c['full_argv'], stdin=bytes.fromhex(c['stdin']) if isinstance(c['stdin'], str) else b'', component=c['component']), ctx)
         else:
